@@ -688,6 +688,15 @@ pub fn c07_case() -> impl Strategy<Value = C07Case> {
         -1i32..=1,
     )
         .prop_map(|(mut devices, variant, seed, fi, boundary, k, delta)| {
+            // a tenth of the networks carries no process data at all (couplers only): the cycle
+            // consists of the clock datagram and state checks
+            if seed % 10 == 0 {
+                for d in &mut devices {
+                    d.0 = 0;
+                    d.1 = 0;
+                }
+            }
+
             // keep the image within MAX_PDI = 2048
             let mut total = 0usize;
 
